@@ -22,6 +22,7 @@ import (
 //	c := E; if c {   -> if E {      when c is used nowhere else and E is free of calls
 //	a, b := x, y     -> a := x; b := y   (new variables, call-free operands)
 //	for i := range xs { v := xs[i]; ...  ->  for i, v := range xs { ...
+//	var x = E        -> x := E        (one name, one value, no declared type)
 //
 // Only operands are exchanged and operator tokens changed; every node keeps
 // its identity, so types.Info stays valid. Both rewrites preserve meaning for
@@ -169,12 +170,31 @@ func normalize(pk *packages.Package) {
 			}
 			return out
 		}
+		// var x = e  (one name, one value, no declared type)  ->  x := e
+		varForm := func(list []ast.Stmt) []ast.Stmt {
+			for i, st := range list {
+				ds, ok := st.(*ast.DeclStmt)
+				if !ok {
+					continue
+				}
+				gd, ok := ds.Decl.(*ast.GenDecl)
+				if !ok || gd.Tok != token.VAR || len(gd.Specs) != 1 {
+					continue
+				}
+				vs, ok := gd.Specs[0].(*ast.ValueSpec)
+				if !ok || vs.Type != nil || len(vs.Names) != 1 || len(vs.Values) != 1 || vs.Names[0].Name == "_" {
+					continue
+				}
+				list[i] = &ast.AssignStmt{Lhs: []ast.Expr{vs.Names[0]}, TokPos: vs.Names[0].End(), Tok: token.DEFINE, Rhs: []ast.Expr{vs.Values[0]}}
+			}
+			return list
+		}
 		ast.Inspect(f, func(n ast.Node) bool {
 			switch x := n.(type) {
 			case *ast.BlockStmt:
-				x.List = splitList(x.List)
+				x.List = splitList(varForm(x.List))
 			case *ast.CaseClause:
-				x.Body = splitList(x.Body)
+				x.Body = splitList(varForm(x.Body))
 			}
 			return true
 		})
